@@ -119,7 +119,7 @@ def match_chars(ref, pc, items, chars):
 
 
 def _print_string_task(args):
-    ctx, nch, part = args
+    ctx, nch, part, utf8 = args
     calib = calibrate()
     ex = ctx.exec(summaries=base_summaries(calib), max_visits=6 * nch + 12)
     F = ex.find(r'^output_style::<impl at [^>]*>::print_string$') if False else None
@@ -130,6 +130,7 @@ def _print_string_task(args):
     st = State()
     so = st.new_obj('self', 'JsonOutputOptions'); selfref = slot(st, ObjV(so), 'self*')
     utf8flag = z3.Bool('utf8_strings'); st.heap[so][('f', None, JO.index('utf8_strings'))] = BoolV(utf8flag)
+    if utf8 is not None: st.pc.append(utf8flag if utf8 else z3.Not(utf8flag))
     st.heap[so][('f', None, JO.index('style'))] = named(st, 'style', 'JsonStyle')
     chars = [z3.BitVec(f'c{i}', 32) for i in range(nch)]
     for c in chars: st.pc.append(z3.Or(z3.ULT(c, 0xD800), z3.And(z3.UGE(c, 0xE000), z3.ULE(c, 0x10FFFF))))
@@ -188,13 +189,14 @@ CHAR_PARTS = [lambda c: z3.ULT(c, 0x20), lambda c: z3.And(z3.UGE(c, 0x20), z3.UL
               lambda c: z3.And(z3.UGE(c, 0x800), z3.ULT(c, 0x10000)), lambda c: z3.UGE(c, 0x10000)]
 
 
-def print_string(ctx):
+def print_string(ctx, utf8=None):
+    """utf8: None = the flag is free; True / False = only that setting (text and csv fields print nested values with the flag on)"""
     run = ctx.run
     ns = [1, 2] if ctx.quick else [1, 2, 3]
-    run.bounds['print_string'] = f'strings of {ns} code points, each any Unicode scalar value (21-bit, surrogates excluded); utf8_strings free'
+    run.bounds['print_string'] = f'strings of {ns} code points, each any Unicode scalar value (21-bit, surrogates excluded); utf8_strings ' + ('free' if utf8 is None else str(utf8))
     run.assume('core::fmt renders a literal template as its bytes, `{}` of a char as its UTF-8 and `{:04x}` as lower-case hex zero-padded to 4 (template byte code calibrated against the same compiler at run time)')
     fam = run.family('print.string', 'JsonOutputOptions::print_string writes one well-formed RFC 8259 string token that decodes (independent symbolic reader) to exactly the input code points; ASCII only unless --utf8-strings')
-    tasks = [(ctx, n, p) for n in ns for p in CHAR_PARTS]
+    tasks = [(ctx, n, p, utf8) for n in ns for p in CHAR_PARTS]
     results = pmap(_print_string_task, tasks)
     cands = {}
     for r in results:
